@@ -52,7 +52,10 @@ def _run(args, cwd=None):
 def search(pid, routine, failure, rep):
     seed = int(os.environ.get("VERIF_SEED", "0") or 0) + 1
     rc, hits = _run(["search", routine, str(seed)])
-    if rc == 1 and hits:
+    import units
+    known_cases = units.PROPS.get(pid, {}).get("known_cases", [])
+    hits = [h for h in hits if h.get("case") not in known_cases]
+    if hits:
         h = hits[0]
         h["replay_args"] = ["replay", routine, h["case"], h["input"]]
         return h
